@@ -21,6 +21,7 @@ type RecEvent struct {
 	TimeNs   int64
 	Duration int64
 	Message  string
+	Details  string
 }
 
 func (h *RecHandler) Handle(e alert.Event) {
@@ -32,6 +33,6 @@ func (h *RecHandler) Handle(e alert.Event) {
 	}
 	h.Events = append(h.Events, RecEvent{
 		Stamp: simrt.Stamp(), Topic: e.Topic, ID: e.State.ID, Level: e.State.Level, Prev: e.PreviousState().Level,
-		TimeNs: e.State.Time.UnixNano(), Duration: int64(e.State.Duration), Message: e.State.Message,
+		TimeNs: e.State.Time.UnixNano(), Duration: int64(e.State.Duration), Message: e.State.Message, Details: e.State.Details,
 	})
 }
